@@ -201,15 +201,19 @@ class GroundedEffect:
             # storing a copy so that the state does not share the function object with this (reusable) effect.
             updated_fluent = new_value.copy()
             fluent_name = new_value.untyped_representation
+            # a fluent that the previous state does not define is read as zero (as in set_expression_value).
+            previous_value = (
+                previous_state_functions[fluent_name].value
+                if fluent_name in previous_state_functions
+                else 0.0
+            )
             if (
                 assignment_type in ("increase", "decrease")
-                and fluent_name in previous_state_functions
                 and fluent_name in state.state_fluents
-                and state.state_fluents[fluent_name].value
-                != previous_state_functions[fluent_name].value
+                and state.state_fluents[fluent_name].value != previous_value
             ):
                 # another effect of the action has already changed the fluent - additive effects accumulate.
-                change = new_value.value - previous_state_functions[fluent_name].value
+                change = new_value.value - previous_value
                 updated_fluent.set_value(state.state_fluents[fluent_name].value + change)
 
             state.state_fluents[fluent_name] = updated_fluent
